@@ -124,18 +124,7 @@ def run(ctx):
               'default URL table implementation changed', 'wpull/database/sqltable.py')
 
     # ------------------------------------------------------------------ D3
-    ds = repo.func('wpull.application.tasks.database:DatabaseSetupTask.process')
-    dcfg = ctx.cfg(ds)
-    p = dcfg.find_path(dcfg.entry, lambda m: m is dcfg.exit, edge_ok=F.normal, stop=F.has_call('release'))
-    rel_calls = [c for c in U.calls(ds.node, attr='release')]
-    okr = p is None and len(rel_calls) == 1
-    if okr:
-        recv = U.expand_locals(ds.node, rel_calls[0].func.value)
-        okr = isinstance(recv, ast.Call) and U.attr_name(recv) == 'new' and recv.args and isinstance(recv.args[0], ast.Constant) \
-            and recv.args[0].value == 'URLTable'
-    ck.expect(okr, 'C03-D3', ds.qual, 'url_table.release() on every path, on the table just created',
-              'start-up can skip releasing in-progress rows: URLs checked out by a killed run are never retried', ds.loc(),
-              path=describe_path(p) if p else None)
+    d3_release_at_startup(ctx)
     order = pipeline_tasks(repo)
     flat = [t for _, ts in order for t in ts]
     try:
@@ -301,6 +290,24 @@ def run(ctx):
             guards = [a for a in U.ancestors(sets[0], pm) if isinstance(a, ast.If)]
             oks = len(guards) == 1 and (U.like(guards[0].test, 'L_a == Actions.NORMAL') or U.like(guards[0].test, 'Actions.NORMAL == L_a'))
         ck.expect(oks, 'C03-D6', f.qual, '%s stored only for Actions.NORMAL' % status, '%s: status handling changed' % name, f.loc())
+
+
+def d3_release_at_startup(ctx):
+    """DatabaseSetupTask.process releases the in-progress rows of the table it has just created, on every path (whatever
+    option named the database).  Shared: a row left in progress is never handed out again (C01: none left in progress)."""
+    repo, ck = ctx.repo, ctx.check
+    ds = repo.func('wpull.application.tasks.database:DatabaseSetupTask.process')
+    dcfg = ctx.cfg(ds)
+    p = dcfg.find_path(dcfg.entry, lambda m: m is dcfg.exit, edge_ok=F.normal, stop=F.has_call('release'))
+    rel_calls = [c for c in U.calls(ds.node, attr='release')]
+    okr = p is None and len(rel_calls) == 1
+    if okr:
+        recv = U.expand_locals(ds.node, rel_calls[0].func.value)
+        okr = isinstance(recv, ast.Call) and U.attr_name(recv) == 'new' and recv.args and isinstance(recv.args[0], ast.Constant) \
+            and recv.args[0].value == 'URLTable'
+    ck.expect(okr, 'C03-D3', ds.qual, 'url_table.release() on every path, on the table just created',
+              'start-up can skip releasing in-progress rows: URLs checked out by a killed run are never retried', ds.loc(),
+              path=describe_path(p) if p else None)
 
 
 def _callee_names(n):
